@@ -73,6 +73,8 @@ static int dup_taken, drop_taken;
 static size_t max_dgram;
 static int dup_req_delivered; /* a datagram with an already seen message id reached the server again */
 static int seen_mids[256], nseen_mids;
+static int dup_resp_delivered; /* a response datagram (same type + message id) reached the client a second time */
+static int seen_resp[256], nseen_resp;
 
 static void
 release_cb(coap_session_t *session, void *app_ptr) {
@@ -191,9 +193,14 @@ resp_handler(coap_session_t *session, const coap_pdu_t *sent, const coap_pdu_t *
   if (xi < 0) {
     char hx[20];
     vx_hex(hx, sizeof hx, t.s, t.length);
-    vx_fail(dup_req_delivered ? "token:client-handler-foreign:after-duplicate-request-reprocessed" : "token:client-handler-foreign",
+    vx_fail(dup_req_delivered    ? "token:client-handler-foreign:after-duplicate-request-reprocessed"
+            : dup_resp_delivered ? "token:client-handler-foreign:after-stale-duplicate-response"
+                                 : "token:client-handler-foreign",
             "response handler saw token %s which the application never used (libcoap's internal token leaked)%s", hx,
-            dup_req_delivered ? " - a response to a duplicated block request that the server processed a second time" : "");
+            dup_req_delivered    ? " - a response to a duplicated block request that the server processed a second time"
+            : dup_resp_delivered ? " - a duplicate of an older block response was processed again by the client (only the last ACK mid is remembered), "
+                                   "blocks were sent twice and the surplus replies carry internal tokens"
+                                 : "");
     return COAP_RESPONSE_OK;
   }
   struct xfer *x = &X[xi];
@@ -246,6 +253,15 @@ nack_handler(coap_session_t *session, const coap_pdu_t *sent, const coap_nack_re
 
 static void
 on_deliver(const ns_dgram_t *d) {
+  if (d->len >= 4 && ns_addr_host(&d->dst) == ns_addr_host(&cli_addr) && d->data[1] >= 64) {
+    int key = ((d->data[0] >> 4) & 3) << 16 | d->data[2] << 8 | d->data[3];
+    for (int i = 0; i < nseen_resp; i++)
+      if (seen_resp[i] == key)
+        dup_resp_delivered = 1;
+    if (nseen_resp < 256)
+      seen_resp[nseen_resp++] = key;
+    return;
+  }
   if (ns_addr_host(&d->dst) != ns_addr_host(&srv_addr) || d->len < 4)
     return;
   int type = (d->data[0] >> 4) & 3;
@@ -409,6 +425,8 @@ run(void *arg) {
   ns_on_deliver = on_deliver;
   dup_req_delivered = 0;
   nseen_mids = 0;
+  dup_resp_delivered = 0;
+  nseen_resp = 0;
   ns_addr(&srv_addr, 1, 5683);
   ns_addr(&cli_addr, 50, 40001);
   int mode = COAP_BLOCK_USE_LIBCOAP | (C->single ? COAP_BLOCK_SINGLE_BODY : 0);
@@ -488,7 +506,12 @@ run(void *arg) {
         multi += x->srv_cover[b] > 1;
       }
       if (multi || (C->single && x->srv_calls > 1)) {
-        if (dup_req_delivered) {
+        if (!dup_req_delivered && dup_resp_delivered) {
+          snprintf(sig, sizeof sig, "twice:server:%s:after-stale-duplicate-response", C->single ? "single-body" : "per-block");
+          vx_fail(sig, "%s: a duplicate of an older 2.31 reached the client after a newer ACK; the client (which remembers only the last ACK "
+                       "message id) sent the following block again with a new message id and the server handed it to the application twice "
+                       "(calls=%d, L=%zu)", dname[C->dir], x->srv_calls, x->Lreq);
+        } else if (dup_req_delivered) {
           /* a retransmitted / duplicated request datagram (same message id) was processed again: the server keeps no
            * record of handled message ids (RFC 7252 4.5) */
           snprintf(sig, sizeof sig, "twice:server:duplicate-request-datagram-reprocessed:%s", C->single ? "single-body" : "per-block");
